@@ -610,8 +610,11 @@ func (fr *Frame) specQuant(q *EQuant, env *SpecEnv) Val {
 		if fc.skKind == nil {
 			fc.skKind = map[string]int{}
 		}
-		fc.skKind[bv] = qkind
 		body := fr.evalBool(q.Body, benv)
+		fc.skKind[bv] = mixedKind(qkind, body, bv)
+		if fc.skKind[bv] != qkind {
+			fc.hasMixedQuant = true
+		}
 		if q.All {
 			return Val{S: sImp(rng, body), Typ: tBool}
 		}
@@ -637,7 +640,11 @@ func (fr *Frame) specQuant(q *EQuant, env *SpecEnv) Val {
 			str = fmt.Sprintf("(forall ((%s Int)) %s)", bv, full)
 		}
 		if record {
-			*env.qs = append(*env.qs, QInst{Forall: str, Var: bv, Inst: full, Children: children, Consts: consts, Kind: qkind})
+			mk := mixedKind(qkind, body, bv)
+			if mk != qkind {
+				fc.hasMixedQuant = true
+			}
+			*env.qs = append(*env.qs, QInst{Forall: str, Var: bv, Inst: full, Children: children, Consts: consts, Kind: mk})
 		}
 		return Val{S: str, Typ: tBool}
 	}
@@ -1231,4 +1238,53 @@ func readDiffs(e1 string, h1, h2 []string) []string {
 		}
 	}
 	return out
+}
+
+// mixedKind: a position variable that is also used as a map key (or a key variable also used as a position)
+// has no kind: it is instantiated at, and its skolem constant offered to, both sorts of quantifiers
+func mixedKind(kind int, body string, bv string) int {
+	usedIn := func(pat string, argIdx int) bool {
+		from := 0
+		for {
+			k := strings.Index(body[from:], pat)
+			if k < 0 {
+				return false
+			}
+			k += from
+			from = k + 1
+			d, j := 0, k
+			for ; j < len(body); j++ {
+				if body[j] == '(' {
+					d++
+				} else if body[j] == ')' {
+					d--
+					if d == 0 {
+						break
+					}
+				}
+			}
+			if j >= len(body) {
+				return false
+			}
+			a := splitSexpr(body[k : j+1])
+			for n, x := range a {
+				if n >= argIdx && strings.Contains(x, bv) {
+					return true
+				}
+			}
+		}
+	}
+	switch kind {
+	case kIdx:
+		// (select (select |MP:..| m) key) with the variable in the key
+		if usedIn("(select (select |MP:", 2) || usedIn("(select (select |MV:", 2) {
+			return 0
+		}
+	case kKey:
+		// (+ (sl_off s) index...) with the variable in the index
+		if usedIn("(+ (sl_off ", 2) {
+			return 0
+		}
+	}
+	return kind
 }
